@@ -17,6 +17,10 @@ def check_receivers(ctx, sc, r=None):
     # include one receiver outside the room
     out_pt = np.array(sc['sides']) * np.array([1.5, 0.5, 0.5])
     recs = np.vstack([recs, out_pt[None, :]])
+    # ... and one so far away that its direct sound (and every patch leg) arrives after the end
+    S_run = np.asarray(r._energy_exchange_etc).shape[-1]
+    far_pt = np.asarray(sc['src'], float) + np.array([(S_run + 2.5) * r.speed_of_sound * r._etc_time_resolution, 0.3, 0.2])
+    recs = np.vstack([recs, far_pt[None, :]])
     pw_all = r.collect_energy_receiver_patchwise(scenes.coords(recs)).time
     mono = r.collect_energy_receiver_mono(scenes.coords(recs)).time
     ctx.oracle_evals += 2
